@@ -594,3 +594,15 @@ pub fn slice_signature(mut sl: Box<dyn Graph>, labels: &[Label]) -> String {
     }
     out
 }
+
+/// The datum every present vertex really holds, read non-destructively through the hook
+/// (None = no datum). Used as the reference by the printers' monitors, so that a defect in put()/
+/// data() cannot be blamed on a printer that prints what is really there.
+pub fn real_data(g: &dyn Graph) -> std::collections::BTreeMap<usize, Option<Vec<u8>>> {
+    g.snapshot()
+        .slots
+        .iter()
+        .filter(|x| x.branch != 0)
+        .map(|x| (x.id, if x.persistence == 0 { None } else { Some(x.data.clone()) }))
+        .collect()
+}
